@@ -379,6 +379,7 @@ class TolerantExecutor(FrameExecutor):
             if isinstance(rowsel, _SliceV):
                 hi = u.hi if rowsel.hi is None else self._num(st, rowsel.hi)
                 self.read_site(st, "universe.loc[lo:hi]", dsl.ite(hi <= u.hi, hi, u.hi), self.now_of(st, owner))
+                self.window_site(st, owner, None if rowsel.lo is None else self._num(st, rowsel.lo), hi if rowsel.hi is not None else None)
                 return [(st, WindowV(owner, None, u.hi, self.ucols(owner)))]
             d = self._num(st, rowsel)
             self.read_site(st, "universe.loc[t]", dsl.ite(d <= u.hi, d, u.hi), self.now_of(st, owner))
